@@ -384,3 +384,195 @@ def kek_agree(c):
         s1 = ECDH(ct, xe, ECPUBX(ct, xg), ECPUBY(ct, xg))
         s2 = ECDH(ct, xg, ECPUBX(ct, xe), ECPUBY(ct, xe))
         c.prove(f"ecdh-{cname}-shared-secret-agree", s1 == s2)
+
+
+# ------------------------------------------------------------------------------------------------ wrappers around the primitives
+def _alg_param(c, name, oid, enum_name):
+    k = c.ctx.choose(2, name)
+    if k == 0:
+        return SEnum(c.I.P.find_class("AlgorithmOID"), oid, enum_name) if c.ctx.branch(z3.Bool(name + "_as_enum")) else oid, True
+    return "1.2.840.113549.3.7", False  # some other algorithm
+
+
+def gcm_parameters(c, nonce):
+    """GCMParameters ::= SEQUENCE { aes-nonce OCTET STRING, aes-ICVlen INTEGER } with ICV length 16 (RFC 5084)"""
+    from .c_cms import INT_SMALL, OCTETS, SEQ
+
+    return c.rope(SEQ(c, OCTETS(c, nonce), INT_SMALL(c, 16)))
+
+
+@REG.contract("dpapi_ng._crypto.cek_encrypt", props=["C19", "C01"], inline=True)
+def cek_encrypt(c):
+    alg, known = _alg_param(c, "algorithm", AES256_WRAP, "AES256_WRAP")
+    c.param("algorithm", T.const(alg))
+    c.param("parameters", T.opt(T.Bytes))
+    kek = c.param("kek", T.bytes(32))
+    value = c.param("value", T.bytes(32))
+    c.raises("NotImplementedError", when=not known)
+    c.raises_only({"NotImplementedError"})
+    if known:
+        t = KW(R.to_term(c.ctx, kek.rope), R.to_term(c.ctx, value.rope))
+        c.returns(atom(t))
+    else:
+        c.no_normal_return()
+
+
+@REG.contract("dpapi_ng._crypto.cek_decrypt", props=["C04", "C01", "C05"], inline=True)
+def cek_decrypt(c):
+    alg, known = _alg_param(c, "algorithm", AES256_WRAP, "AES256_WRAP")
+    c.param("algorithm", T.const(alg))
+    c.param("parameters", T.opt(T.Bytes))
+    kek = c.param("kek", T.bytes(32))
+    value = c.param("value", T.Bytes)
+    unwrap = "cryptography.hazmat.primitives.keywrap.InvalidUnwrap"
+    c.raises("NotImplementedError", when=not known)
+    c.raises(unwrap, when=None)
+    c.raises("ValueError", when=None, label="optional")
+    c.raises_only({"NotImplementedError", unwrap, "ValueError"})
+    if known:
+        k, w = R.to_term(c.ctx, kek.rope), R.to_term(c.ctx, value.rope)
+        c.ensures("the-whole-encrypted-key-is-unwrapped-under-the-kek-and-verified", lambda r: [KWOK(k, w), c.eq(r, atom(KWU(k, w)))])
+    else:
+        c.no_normal_return()
+
+
+@REG.contract("dpapi_ng._crypto.content_encrypt", props=["C19", "C01"], inline=True)
+def content_encrypt(c):
+    alg, known = _alg_param(c, "algorithm", AES256_GCM, "AES256_GCM")
+    c.param("algorithm", T.const(alg))
+    nonce = c.fresh(T.bytes(12), "nonce")
+    c.param("parameters", T.const(gcm_parameters(c, nonce)))
+    cek = c.param("cek", T.bytes(32))
+    value = c.param("value", T.Bytes)
+    c.raises("NotImplementedError", when=not known)
+    c.raises_only({"NotImplementedError"})
+    if known:
+        c.returns(atom(GCMENC(R.to_term(c.ctx, cek.rope), R.to_term(c.ctx, nonce.rope), R.to_term(c.ctx, value.rope))))
+    else:
+        c.no_normal_return()
+
+
+@REG.contract("dpapi_ng._crypto.content_decrypt", props=["C04", "C01", "C05"], inline=True)
+def content_decrypt(c):
+    alg, known = _alg_param(c, "algorithm", AES256_GCM, "AES256_GCM")
+    c.param("algorithm", T.const(alg))
+    nonce = c.fresh(T.bytes(12), "nonce")
+    c.param("parameters", T.const(gcm_parameters(c, nonce)))
+    cek = c.param("cek", T.bytes(32))
+    value = c.param("value", T.Bytes)
+    tag = "cryptography.exceptions.InvalidTag"
+    c.raises("NotImplementedError", when=not known)
+    c.raises(tag, when=None)
+    c.raises_only({"NotImplementedError", tag})
+    if known:
+        k, n, d = R.to_term(c.ctx, cek.rope), R.to_term(c.ctx, nonce.rope), R.to_term(c.ctx, value.rope)
+        # the whole value (ciphertext and tag) is authenticated under the CEK and the nonce from the parameters, no AAD
+        c.ensures("authenticated-decryption-of-the-whole-content", lambda r: [GCMOK(k, n, d), c.eq(r, atom(GCMDEC(k, n, d)))])
+    else:
+        c.no_normal_return()
+
+
+# ------------------------------------------------------------------------------------------------ _encrypt_blob (C19, C06 emission, C01)
+@REG.contract("dpapi_ng._client._encrypt_blob", props=["C19", "C06", "C01"])
+def encrypt_blob(c):
+    from .c_cms import blob_fresh, cms_layout
+
+    if not c.verifying:
+        c.inline_instead()
+    plaintext = c.param("blob", T.Bytes)
+    key, alg_t = seed_envelope(c, "key")
+    kf = key.fields
+    c.assume(c.mod(kf["flags"], 2) == 0)  # nonce mode (public-key mode differs only inside new_kek, see its contract)
+    c.assume(z3.And(Z(kf["l0"]) >= 0, Z(kf["l0"]) < 2**31, in_range(kf["l1"], kf["l2"])))  # an envelope for a real key position
+    c.assume(z3.And(Z(c.len(u16z(c, kf["domain_name"]))) < 2**32, Z(c.len(u16z(c, kf["forest_name"]))) < 2**32))
+    c.param("key", T.const(key))
+    sid = c.fresh(T.Str, "sid")
+    pd = SObj(c.I.P.find_class("SIDDescriptor"), {"type": SEnum(c.I.P.find_class("ProtectionDescriptorType"), "1.3.6.1.4.1.311.74.1.1", "SID"), "value": sid})
+    c.param("protection_descriptor", T.const(pd))
+    c.raises("NotImplementedError", when=None)  # unsupported hash name in the envelope
+    c.raises("ValueError", when=None, label="optional")
+    c.raises_only({"NotImplementedError", "ValueError"})
+
+    def ok(r):
+        draws = [(k, d) for k, d in c.ctx.trace if k in ("generate_key", "urandom")]
+        if [k for k, _ in draws] != ["generate_key", "urandom", "urandom"]:
+            return False  # exactly three draws: CEK, GCM nonce, key-identifier nonce
+        cek, nonce, ki = (atom(d["term"]) for _, d in draws)
+        sizes = [c.I.eq(draws[0][1]["bits"], 256), c.I.eq(draws[1][1]["n"], 12), c.I.eq(draws[2][1]["n"], 32)]
+        kek = kdf_value(c, alg_t, kf["l2_key"], lit(c, LABEL), ki, 32)
+        f = {
+            "kid": {"version": 1, "flags": kf["flags"], "l0": kf["l0"], "l1": kf["l1"], "l2": kf["l2"], "root_key_identifier": kf["root_key_identifier"],
+                    "key_info": ki, "domain_name": kf["domain_name"], "forest_name": kf["forest_name"]},
+            "sid": sid,
+            "enc_cek": atom(KW(R.to_term(c.ctx, kek.rope), R.to_term(c.ctx, cek.rope))),
+            "enc_cek_algorithm": AES256_WRAP,
+            "enc_cek_parameters": None,
+            "enc_content": atom(GCMENC(R.to_term(c.ctx, cek.rope), R.to_term(c.ctx, nonce.rope), R.to_term(c.ctx, c.I.rope_of(plaintext)))),
+            "enc_content_algorithm": AES256_GCM,
+            "enc_content_parameters": gcm_parameters(c, nonce),
+        }
+        # one KEKRecipientInfo, versions 2 and 4, AES256-wrap without parameters, AES256-GCM with {12-byte nonce, ICV 16}:
+        # all part of the layout equality below
+        return sizes + [c.eq(r, cms_layout(c, f, True))]
+
+    c.ensures("emits-the-windows-layout-with-fresh-cek-nonce-and-key-info", ok)
+
+
+# ------------------------------------------------------------------------------------------------ _decrypt_blob (C04, C01)
+@REG.contract("dpapi_ng._client._decrypt_blob", props=["C04", "C01"])
+def decrypt_blob(c):
+    from .c_cms import blob_fresh, blob_obj
+
+    if not c.verifying:
+        c.inline_instead()
+    f = blob_fresh(c)
+    f["enc_cek_algorithm"] = AES256_WRAP if c.ctx.branch(z3.Bool("known_kek_alg")) else c.fresh(T.Str, "other_kek_alg")
+    f["enc_content_algorithm"] = AES256_GCM if c.ctx.branch(z3.Bool("known_content_alg")) else c.fresh(T.Str, "other_content_alg")
+    # parameters: absent, or well-formed GCM parameters (malformed parameters are C05's subject)
+    if f["enc_content_parameters"] is not None:
+        f["enc_content_parameters"] = gcm_parameters(c, c.fresh(T.Bytes, "nonce"))
+    blob = blob_obj(c, f)
+    c.param("blob", T.const(blob))
+    key, alg_t = seed_envelope(c, "key")
+    base = fresh_bytes("base")
+    key.ghost["base"] = base
+    c.assume(valid_seed(c.I, alg_t, key, base))
+    c.param("key", T.const(key))
+    errs = {"ValueError", "NotImplementedError", "OverflowError", "cryptography.exceptions.InvalidTag", "cryptography.hazmat.primitives.keywrap.InvalidUnwrap",
+            "dpapi_ng._asn1:NotEnougData"}
+    for e in errs:
+        c.raises(e, when=None)
+    c.raises_only(errs)
+
+    def routed(r):
+        """every byte that can influence the plaintext went through the two authenticated primitives, keyed as specified"""
+        un = [d for k, d in c.ctx.trace if k == "key_unwrap"]
+        de = [d for k, d in c.ctx.trace if k == "gcm_decrypt"]
+        if len(un) != 1 or len(de) != 1:
+            return False
+        kek_t = R.to_term(c.ctx, c.I.rope_of(un[0]["kek"]))
+        cek = atom(KWU(kek_t, R.to_term(c.ctx, c.I.rope_of(f["enc_cek"]))))
+        return [
+            c.eq(un[0]["wrapped"], f["enc_cek"]),  # the whole encrypted key
+            c.eq(de[0]["key"], cek),  # the content key is the verified unwrap result, nothing else
+            c.eq(de[0]["data"], f["enc_content"]),  # the whole content including the tag
+            c.eq(r, atom(GCMDEC(R.to_term(c.ctx, cek.rope), R.to_term(c.ctx, c.I.rope_of(de[0]["nonce"])), R.to_term(c.ctx, c.I.rope_of(f["enc_content"]))))),
+        ]
+
+    c.ensures("plaintext-is-the-authenticated-decryption-under-the-unwrapped-cek", routed)
+
+
+@REG.lemma("tamper", props=["C04"])
+def tamper(c):
+    """A-IDEAL (cryptographic, assumed): with one honest blob, a successful unwrap under a key that only honest code used
+    was produced by the honest wrap, and a successful GCM opening under the honest CEK is the honest encryption. Given the
+    routing postcondition of _decrypt_blob, any modified blob that decrypts at all then decrypts to the original plaintext."""
+    kek, cek, iv, P = (fresh_bytes(n) for n in ("kek", "cek", "iv", "P"))
+    k2, w2, n2, d2 = (fresh_bytes(n) for n in ("kek2", "enc_cek2", "iv2", "enc_content2"))
+    honest_w = KW(kek, cek)
+    honest_c = GCMENC(cek, iv, P)
+    # A-KW / A-GCM (functional) are global axioms; A-IDEAL for this blob:
+    c.assume(z3.Implies(KWOK(k2, w2), z3.And(k2 == kek, w2 == honest_w)))
+    c.assume(z3.Implies(z3.And(GCMOK(KWU(k2, w2), n2, d2), KWOK(k2, w2)), z3.And(n2 == iv, d2 == honest_c)))
+    c.assume(z3.And(KWOK(k2, w2), GCMOK(KWU(k2, w2), n2, d2)))  # the modified blob decrypts (routing postcondition)
+    c.prove("decrypts-to-the-original-plaintext", GCMDEC(KWU(k2, w2), n2, d2) == P)
